@@ -9,7 +9,9 @@ package checks
 
 import (
 	"bytes"
+	"errors"
 	"fmt"
+	"net"
 	"strings"
 	"sync/atomic"
 	"testing"
@@ -72,6 +74,15 @@ type c23Conn struct {
 	xid  uint32
 	frag int
 	big  bool
+	// patience: how long a reply is waited for (0 = 10 s). A call that got no reply in time is repeated once, on a
+	// fresh connection, with 90 s: on a starved machine a 1 MiB record takes its time, and only a request that is
+	// not answered then either counts as unanswered.
+	patience time.Duration
+}
+
+func c23Timeout(err error) bool {
+	var ne net.Error
+	return errors.As(err, &ne) && ne.Timeout()
 }
 
 var c23BigGids = []uint32{1, 2, 3, 4, 5, 6, 7, 8, 9, 10, 11, 12, 13, 14, 15, 16}
@@ -89,7 +100,11 @@ func (c *c23Conn) call(proc uint32, prog uint32, args []byte) (*nfsx.Reply, erro
 			frags = append(frags, c.frag)
 		}
 	}
-	rec, err := c.cl.RoundTrip(msg, 10*time.Second, frags...)
+	wait := 10 * time.Second
+	if c.patience > 0 {
+		wait = c.patience
+	}
+	rec, err := c.cl.RoundTrip(msg, wait, frags...)
 	if err != nil {
 		return nil, err
 	}
@@ -210,6 +225,15 @@ func runC23(tb stat.TB, c c23Case) {
 				data[i] = byte(i%251+wseq*17) | 1
 			}
 			rp, err := conn.call(nfsx.ProcWrite, nfsx.ProgNFS, nfsx.ArgsWrite(fh, 0, cnt, nfsx.FileSync, data))
+			if err != nil && c23Timeout(err) {
+				// no reply within 10 s and the connection still open: the same (idempotent) WRITE once more, patiently
+				stat.Label("write_repeated_with_90s_patience_after_10s_without_reply", 1)
+				conn.cl.Close()
+				conn = dial()
+				conn.patience = 90 * time.Second
+				rp, err = conn.call(nfsx.ProcWrite, nfsx.ProgNFS, nfsx.ArgsWrite(fh, 0, cnt, nfsx.FileSync, data))
+				conn.patience = 0
+			}
 			if err != nil {
 				conn.cl.Close()
 				conn = dial()
@@ -235,6 +259,14 @@ func runC23(tb stat.TB, c c23Case) {
 		}
 		for _, cnt := range c23Counts(f.Rtmax, f.Rtpref, c.Sel) {
 			rp, err := conn.call(nfsx.ProcRead, nfsx.ProgNFS, nfsx.ArgsRead(fh, 0, cnt))
+			if err != nil && c23Timeout(err) {
+				stat.Label("read_repeated_with_90s_patience_after_10s_without_reply", 1)
+				conn.cl.Close()
+				conn = dial()
+				conn.patience = 90 * time.Second
+				rp, err = conn.call(nfsx.ProcRead, nfsx.ProgNFS, nfsx.ArgsRead(fh, 0, cnt))
+				conn.patience = 0
+			}
 			if err != nil {
 				conn.cl.Close()
 				conn = dial()
@@ -294,13 +326,18 @@ func runC23(tb stat.TB, c c23Case) {
 			case r := <-done:
 				armed.Store(false)
 				done <- r
-			case <-time.After(10 * time.Second):
+			case <-time.After(60 * time.Second):
 				close(gate)
 				tb.Fatalf("harness: WRITE neither parked nor finished")
 			}
 			r := <-done
 			v.SetBefore(nil)
 			what := fmt.Sprintf("[WRITE of wtmax=%d parked at its first backend call while TransferSize was set to %d at runtime]", cnt, c.ShrinkDuring)
+			if r.err != nil && c23Timeout(r.err) {
+				// (the connection is still open, the reply did not come within the harness' wait: not judged)
+				stat.Label("parked_write_not_answered_in_time_not_judged", 1)
+				return
+			}
 			if r.err != nil {
 				stat.Violate(tb, id, check, "connection-dropped-on-write-within-wtmax", c, "%s no reply: %v", what, r.err)
 				return
